@@ -9,6 +9,7 @@ declare -A EXTRA=(
   [C09-3]="C10" [C10-2]="C13" [C10-3]="C11 C13" [C10-4]="C13" [C12-3]="C01 C02 C03" [C12-4]="C11 C03"
   [C11-1]="C03" [C04-1]="C07" [C03-2]="C12" [C12-1]="C03" [C01-1]="C02" [C02-1]="C01"
   [C04-3]="C01 C02" [C05-3]="C11 C03" [C06-3]="C11 C01" [C07-4]="C01" [C08-3]="C10" [C08-4]="C09" [C11-3]="C03"
+  [C15-4]="C01 C02" [C18-3]="C01" [C18-4]="C02"
   [C05-1]="C04" [C06-1]="C04" [C04-2]="C05 C06" [C01-2]="C10 C17" [C10-1]="C01" [C17-2]="C01"
 )
 OUT=seeded/REGRESSION.txt
